@@ -395,6 +395,7 @@ SCOPE = {
 }
 for _pid, _roots in SCOPE.items():
     PROPS[_pid]['rules'].append(partial(G.rule_numloss, roots=_roots))
+    PROPS[_pid]['rules'].append(partial(G.rule_numeric_truth, roots=_roots))
 for _pid in ('C01', 'C08', 'C14'):
     PROPS[_pid]['rules'].append(partial(G.rule_emptiness_scan,
                                         roots=SCOPE[_pid]))
